@@ -1,8 +1,10 @@
 package main
 
 import (
+	"runtime"
 	"sort"
 	"sync"
+	"sync/atomic"
 	"testing/synctest"
 	"time"
 
@@ -224,7 +226,50 @@ func (r *throttleRunner) Do(op []string) string {
 	panic("harness: bad op " + op[0])
 }
 
+// -- throttle under real parallelism (outside the virtual clock): Cancel racing a Next that is about to block
+//
+//	CASE throttlerace <T|F trailing>
+//	race <n>   => ok | stuck <round> <head start> | true <round>     (Next must return false once Cancel has returned)
+type throttleRaceRunner struct{ trailing bool }
+
+func (r *throttleRaceRunner) Do(op []string) string {
+	if op[0] != "race" {
+		panic("harness: bad op " + op[0])
+	}
+	n := atoi(op[1])
+	for i := 0; i < n; i++ {
+		th := gogu.NewThrottle(time.Hour, r.trailing)
+		var ready, fire atomic.Bool
+		res := make(chan bool, 1)
+		go func() {
+			ready.Store(true)
+			for !fire.Load() {
+			}
+			res <- th.Next()
+		}()
+		for !ready.Load() {
+			runtime.Gosched()
+		}
+		fire.Store(true)
+		head := i % 257 // head start of Next over Cancel, in spin iterations
+		for k := 0; k < head*4; k++ {
+			_ = fire.Load()
+		}
+		th.Cancel()
+		select {
+		case v := <-res:
+			if v {
+				return "true " + itoa(i)
+			}
+		case <-time.After(hangLimit / 2):
+			return "stuck " + itoa(i) + " " + itoa(head)
+		}
+	}
+	return "ok"
+}
+
 func init() {
+	kinds["throttlerace"] = func(p []string) Runner { return &throttleRaceRunner{trailing: s2b(p[0])} }
 	for _, k := range []string{"debounce", "delay", "throttle"} {
 		timedKinds[k] = true
 	}
@@ -394,6 +439,16 @@ func genC20(g *Gen) {
 			}
 			muts = append(muts, c20sleep(50))
 			g.Emit("delay", nil, interleave(muts, obsD))
+		}
+	}
+	// ---- throttle: Cancel racing Next on real threads ---------------------------------------------
+	for _, tr := range []string{"T", "F"} {
+		if g.Mine() {
+			n := 3000
+			if g.Thorough() {
+				n = 30000
+			}
+			g.Emit("throttlerace", []string{tr}, []string{"race " + itoa(n), "race " + itoa(n)})
 		}
 	}
 	// ---- throttle -------------------------------------------------------------------------------
